@@ -15,8 +15,22 @@ from .mir import show
 
 
 def has_fact(te, bb, pred, truth):
+    """is `pred` known to be `truth` at bb?  A test written the other way round counts: `a != b` true is `a == b`
+    false, `!p` true is `p` false"""
     for c, val, _, d in te.facts_at(bb):
-        if pred(strip(c)) and ((val != "0") == truth):
+        c = strip(c)
+        holds = val != "0"
+        while isinstance(c, tuple) and c and c[0] == "un" and c[1] == "Not":
+            c, holds = strip(c[2]), not holds
+        if pred(c) and holds == truth:
+            return True
+        # the same comparison with the opposite operator
+        flipped = None
+        if isinstance(c, tuple) and c and c[0] == "bin" and c[1] in ("Ne", "Eq"):
+            flipped = ("bin", "Eq" if c[1] == "Ne" else "Ne") + tuple(c[2:])
+        elif isinstance(c, tuple) and c and c[0] == "call" and c[1].name in ("ne", "eq") and hasattr(c[1], "renamed"):
+            flipped = ("call", c[1].renamed("eq" if c[1].name == "ne" else "ne")) + tuple(c[2:])
+        if flipped is not None and pred(flipped) and (not holds) == truth:
             return True
     return False
 
@@ -52,6 +66,7 @@ def eq_of(a, b):
         if c[0] == "call" and c[1].name in ("eq", "sdd_eq") and len(c[2]) >= 2:
             return {repr(strip(c[2][-2])), repr(strip(c[2][-1]))} == {repr(strip(a)), repr(strip(b))}
         return False
+    p.operands = (a, b)
     return p
 
 
